@@ -9,6 +9,7 @@ import (
 	"fmt"
 	"os"
 	"path/filepath"
+	"runtime"
 	"sort"
 	"strings"
 	"testing"
@@ -17,14 +18,14 @@ import (
 
 type vStep struct {
 	A    string `json:"a"`
-	K    int    `json:"k,omitempty"`
+	K    int    `json:"k"`
 	Name string `json:"name,omitempty"`
 	Def  *vDef  `json:"def,omitempty"`
 	IDs  []int  `json:"ids,omitempty"`
 	V    string `json:"v,omitempty"`
 	New  string `json:"new,omitempty"`
 	Color string `json:"color,omitempty"`
-	Convs []string `json:"convs,omitempty"`
+	Convs []string `json:"convs"`
 }
 
 type vSchedule struct {
@@ -43,6 +44,7 @@ type vRow struct {
 	Msg  string  `json:"msg"`
 	St   *vState `json:"st"`
 	Obs  *vObs   `json:"obs"`
+	NoViewConvert bool `json:"noViewConvert"`
 	Ms   int64   `json:"ms"`
 }
 
@@ -159,6 +161,10 @@ func (s *vScenario) exec(st vStep) (res, msg string, fatal error) {
 			return "skip", "no " + kind + " job at start", nil
 		}
 		if err := s.ctl.compute(kind, 30*time.Second); err != nil {
+			if os.Getenv("VERIF_DUMP") == "1" {
+				buf := make([]byte, 1<<20)
+				os.Stderr.Write(buf[:runtime.Stack(buf, true)])
+			}
 			return "", "", err
 		}
 		return "ok", "", nil
@@ -198,7 +204,26 @@ func (s *vScenario) exec(st vStep) (res, msg string, fatal error) {
 		}
 		return guard(func() error { return mgr.UpdateTag(st.Name, UpdateTagOperationMarkDelStream(ids)) })
 	case "SetConverters":
+		if st.Convs == nil {
+			st.Convs = []string{}
+		}
 		return guard(func() error { return mgr.UpdateTag(st.Name, UpdateTagOperationSetConverter(append([]string{}, st.Convs...))) })
+	case "ConvReset":
+		return guard(func() error { return mgr.ResetConverter(st.Convs[0]) })
+	case "ViewConvert":
+		v, ok := s.views[st.V]
+		if !ok {
+			return "skip", "no such view", nil
+		}
+		s.viewConverted = true
+		sc, err := v.Stream(uint64(st.K))
+		if err != nil || sc.Stream() == nil {
+			return "skip", "no such stream in view", nil
+		}
+		if _, err := sc.Data(st.Convs[0]); err != nil {
+			return "err", err.Error(), nil
+		}
+		return "ok", "", s.sync()
 	case "ViewOpen":
 		v := mgr.GetView()
 		if err := v.fetch(); err != nil {
@@ -313,6 +338,9 @@ func TestVerifManager(t *testing.T) {
 		}
 		n := 0
 		emit := func(ev vStep, res, msg string, t0 time.Time) bool {
+			if ev.Convs == nil {
+				ev.Convs = []string{} // the TLC Json module does not accept null
+			}
 			st, err := s.project()
 			if err != nil {
 				js, _ := json.Marshal(vRow{Tr: tr, Sid: sc.ID, N: n, Ev: ev, Res: "infra", Msg: err.Error()})
@@ -322,7 +350,7 @@ func TestVerifManager(t *testing.T) {
 				return false
 			}
 			obs := s.observe(st)
-			js, err := json.Marshal(vRow{Tr: tr, Sid: sc.ID, N: n, Ev: ev, Res: res, Msg: msg, St: st, Obs: obs, Ms: time.Since(t0).Milliseconds()})
+			js, err := json.Marshal(vRow{Tr: tr, Sid: sc.ID, N: n, Ev: ev, Res: res, Msg: msg, St: st, Obs: obs, Ms: time.Since(t0).Milliseconds(), NoViewConvert: !s.viewConverted})
 			if err != nil {
 				t.Fatal(err)
 			}
@@ -347,6 +375,9 @@ func TestVerifManager(t *testing.T) {
 				ev = vStep{A: a}
 			} else {
 				break
+			}
+			if ev.Convs == nil {
+				ev.Convs = []string{}
 			}
 			t0 := time.Now()
 			res, msg, fatal := s.exec(ev)
